@@ -105,6 +105,7 @@ fn legs_base(id: &str) -> Vec<Leg> {
             leg!("interference_probe_fight", MIX, wx(Profile::Fight), 400, 3200, 300, mk),
             leg!("interference_probe_motif", MOTIF, wx(Profile::Fight), 300, 2400, 60, mk),
             leg!("open_positions_many_actions", OPEN, w(Profile::Normal, None), 400, 3200, 12, mk),
+            leg!("near_immobile_turn_trees", FROZEN, w(Profile::Cycle, Some(TREE)), 40, 1200, 4, mk),
         ],
         "C02" => vec![
             leg!("games_fight", MIX, w(Profile::Fight, Some(TREE_LIGHT)), 480, 14400, 600, mk),
@@ -213,6 +214,7 @@ fn legs_base(id: &str) -> Vec<Leg> {
             leg!("games_played_on_after_the_result", SMALL, wp(Profile::Normal), 600, 4800, 200, mk),
             leg!("interference_probe_fight", MIX, wx(Profile::Fight), 200, 1600, 300, mk),
             leg!("open_positions_many_actions", OPEN, w(Profile::Normal, None), 400, 3200, 12, mk),
+            leg!("near_immobile_turn_trees", FROZEN, w(Profile::Cycle, Some(TREE)), 40, 1200, 4, mk),
         ],
         _ => vec![],
     }
